@@ -62,6 +62,7 @@ class OsetReport:
         self.undecided = []  # (reason)
         self.errors = []
         self.covers = {}
+        self.xcheck = []
         self.secs = 0.0
         self.solver_secs = 0.0
         self.path_assumptions = set()
@@ -86,6 +87,7 @@ class OsetReport:
             "covers": self.covers, "secs": round(self.secs, 3), "solver_secs": round(self.solver_secs, 3),
             "assumptions": sorted(self.assumptions) + sorted(self.path_assumptions), "trusted": self.trusted,
             "executed": getattr(self, "executed", []),
+            "xcheck": getattr(self, "xcheck", []),
         }
 
 
@@ -141,6 +143,8 @@ def run_oset(oset: ObligationSet, loader, max_paths=MAX_PATHS, obl_timeout_ms=No
         if path.pos < len(prefix):
             rep.errors.append("non-deterministic replay: decision prefix not consumed")
         work.extend(path.pending)
+        if path.xcheck and len(rep.xcheck) < 60:
+            rep.xcheck.extend(path.xcheck[:max(0, 60 - len(rep.xcheck))])
         rep.solver_secs += path.solver_secs
         for a in path.assumed:
             rep.path_assumptions.add(a)
